@@ -233,13 +233,17 @@ impl UnifiedDiff {
                     self.unexpected_lines.extend(
                         lines
                             .iter()
+                            // as it would be written in the test document:
+                            // printable text as-is, anything else escaped
                             .map(|(i, l)| {
-                                Ok((
+                                (
                                     *i,
-                                    String::from_utf8((l as &[u8]).trim_newlines().to_vec())?,
-                                ))
+                                    outcome
+                                        .escaping
+                                        .escaped_expectation((l as &[u8]).trim_newlines()),
+                                )
                             })
-                            .collect::<Result<Vec<_>>>()?,
+                            .collect::<Vec<_>>(),
                     );
                     if self.unmatched_start.is_some() {
                         add_diff_hunk!();
